@@ -235,7 +235,23 @@ package channel
 //@   ensures #later-phrases !contains(lb, "no matching") && (contains(lb, "bad configuration") || contains(lb, "warning: unprotected private key file") || contains(lb, "could not resolve hostname") || contains(lb, "permission denied")) ==> result != nil
 //@   ensures #nothing-recognised !contains(lb, "host key verification failed") && !contains(lb, "operation timed out") && !contains(lb, "connection timed out") && !contains(lb, "no route to host") && !contains(lb, "no matching") && !contains(lb, "bad configuration") && !contains(lb, "warning: unprotected private key file") && !contains(lb, "could not resolve hostname") && !contains(lb, "permission denied") ==> result == nil
 
+// counted from the statement, not from the code's own counters: how often each credential went out and how often its
+// prompt was seen during this login (ghosts; the loop invariants tie the code's counters to them)
+//@ ghost unWrites int local
+//@ ghost pwWrites int local
+//@ ghost ppWrites int local
+//@ ghost pwPrompts int local
+//@ ghost ppPrompts int local
+//@ ghost unPrompts int local
 //@ func (*Channel).authenticateSSH [C10 C11]
+//@   after call WriteAndReturn#1 set pwWrites = pwWrites + 1
+//@   after call WriteAndReturn#2 set ppWrites = ppWrites + 1
+//@   after call Match#2 set pwPrompts = pwPrompts + (result ? 1 : 0)
+//@   after call Match#3 set ppPrompts = ppPrompts + (result ? 1 : 0)
+//@   at call! WriteAndReturn#1 assert #the-password-goes-out-at-most-twice-per-open pwWrites - old(pwWrites) < 2
+//@   at call! WriteAndReturn#2 assert #the-passphrase-goes-out-at-most-twice-per-open ppWrites - old(ppWrites) < 2
+//@   at return assert #a-third-password-or-passphrase-prompt-is-an-auth-error pwPrompts - old(pwPrompts) > 2 || ppPrompts - old(ppPrompts) > 2 ==> result != nil && isErr(result.err, util.ErrAuthError)
+//@   loop 1 invariant #the-counters-count-every-prompt-and-every-write-of-this-login pwWrites == old(pwWrites) + pCount && ppWrites == old(ppWrites) + ppCount && pwPrompts == old(pwPrompts) + pCount && ppPrompts == old(ppPrompts) + ppCount
 //@   requires RI(c.Q)
 //@   ensures #queue-invariant-kept RI(c.Q)
 //@   ensures #no-result-only-after-cancellation result == nil ==> cancelled(ctx)
@@ -250,6 +266,14 @@ package channel
 //@   loop 1 invariant RI(c.Q) && 0 <= pCount && pCount <= 2 && 0 <= ppCount && ppCount <= 2
 
 //@ func (*Channel).authenticateTelnet [C10 C11]
+//@   after call WriteAndReturn#1 set unWrites = unWrites + 1
+//@   after call WriteAndReturn#2 set pwWrites = pwWrites + 1
+//@   after call Match#2 set unPrompts = unPrompts + (result ? 1 : 0)
+//@   after call Match#3 set pwPrompts = pwPrompts + (result ? 1 : 0)
+//@   at call! WriteAndReturn#1 assert #the-user-name-goes-out-at-most-twice-per-open unWrites - old(unWrites) < 2
+//@   at call! WriteAndReturn#2 assert #the-password-goes-out-at-most-twice-per-open pwWrites - old(pwWrites) < 2
+//@   at return assert #a-third-user-name-or-password-prompt-is-an-auth-error unPrompts - old(unPrompts) > 2 || pwPrompts - old(pwPrompts) > 2 ==> result != nil && isErr(result.err, util.ErrAuthError)
+//@   loop 1 invariant #the-counters-count-every-prompt-and-every-write-of-this-login unWrites == old(unWrites) + uCount && pwWrites == old(pwWrites) + pCount && unPrompts == old(unPrompts) + uCount && pwPrompts == old(pwPrompts) + pCount
 //@   requires RI(c.Q) && c.PromptSearchDepth >= 0
 //@   ensures #queue-invariant-kept RI(c.Q)
 //@   ensures #always-a-result result != nil
